@@ -227,8 +227,10 @@ def pmtm(x, NW=None, k=None, NFFT=None, e=None, v=None, method="adapt", show=Fal
         a = sig2 * (1 - np.minimum(eigenvalues, 1.0))
         wk = np.ones((NFFT, 1)) * eigenvalues.transpose()
 
-        # converges very quickly but for safety; set i<100
-        while sum(np.abs(S - S1)) / NFFT > tol and i < 100:
+        # converges very quickly but for safety; set i<100. The first pass is
+        # always made: S1 is still zero there, so the test would compare the
+        # initial estimate itself (not a change) with the tolerance
+        while (i == 0 or sum(np.abs(S - S1)) / NFFT > tol) and i < 100:
             i = i + 1
             # calculate weights
             b1 = np.multiply(S, np.ones((1, nwin)))
